@@ -408,16 +408,29 @@ var ElemVias = []string{
 
 // PlanElemMove draws a transition through the given mutator.
 func PlanElemMove(via string, r *gen.Rng) ElemMove {
+	// one time in three the objects come out of the implementation's own decoder / operations rather than from raw
+	// limbs, so that whatever bookkeeping those paths attach to an object is present
+	nat := -1
+	if r.Intn(3) == 0 {
+		nat = 4 // nat-decode: value unchanged
+	}
+
+	return PlanElemMoveFrom(via, r, nat)
+}
+
+// PlanElemMoveFrom is PlanElemMove with the origin of the moved object chosen by the caller: natFrom < 0 = raw limbs in a
+// drawn representation, otherwise the index of a natural kind (mon.NaturalKinds: 4 = out of the decoder, 7 = Base(), 0..3
+// = left by Double / Add / Subtract / Multiply).
+func PlanElemMoveFrom(via string, r *gen.Rng, natFrom int) ElemMove {
 	fresh := func() gen.PV { return gen.Fresh(r) }
 	from := fresh()
 	fromCase := MkElemCase(from, gen.DrawRepr(r, false))
 	aux := fresh()
 	auxCase := MkElemCase(aux, gen.DrawRepr(r, false))
 
-	// one time in three the objects come out of the implementation's own decoder / operations rather than from raw
-	// limbs, so that whatever bookkeeping those paths attach to an object is present
-	if r.Intn(3) == 0 {
-		fromCase = MkNatElemCase(from, 4) // nat-decode: value unchanged
+	if natFrom >= 0 {
+		fromCase = MkNatElemCase(from, natFrom)
+		from = gen.PV{P: fromCase.P.Pt(), Tag: fromCase.P.Tag}
 	}
 
 	if r.Intn(3) == 0 {
